@@ -917,6 +917,63 @@ func (s *pSite) emitContexts() []emitCtx {
 			}
 		}
 	}
+	// subscriptions made by a helper function of the package that is handed the destination (zipInnerSubscription):
+	// every such call is a source whose callbacks emit
+	for _, fn := range s.Closures {
+		for _, b := range fn.Blocks {
+			for _, ins := range b.Instrs {
+				call, ok := ins.(*ssa.Call)
+				if !ok {
+					continue
+				}
+				callee := call.Common().StaticCallee()
+				if callee == nil {
+					continue
+				}
+				if o := callee.Origin(); o != nil {
+					callee = o
+				}
+				if callee.Blocks == nil || callee.Parent() != nil || callee.Signature.Recv() != nil || callee.Pkg == nil || s.Subscribe.Pkg == nil || callee.Pkg != s.Subscribe.Pkg {
+					continue
+				}
+				getsDest := false
+				for _, a := range call.Common().Args {
+					if s.isDest(a) {
+						getsDest = true
+					}
+				}
+				if !getsDest {
+					continue
+				}
+				subscribes, inLoopSub := false, false
+				for _, cf := range closureTree(callee) {
+					for _, cb := range cf.Blocks {
+						for _, ci := range cb.Instrs {
+							if c2, ok := ci.(*ssa.Call); ok {
+								if c2.Common().IsInvoke() && strings.HasPrefix(c2.Common().Method.Name(), "Subscribe") {
+									subscribes = true
+									if inLoop(c2) {
+										inLoopSub = true
+									}
+								}
+								// a helper that calls another subscribing helper in a loop
+								if f2 := c2.Common().StaticCallee(); f2 != nil && f2.Pkg == callee.Pkg && f2.Blocks != nil && inLoop(c2) {
+									for _, a := range c2.Common().Args {
+										if p, ok := a.(*ssa.Parameter); ok && hasMethod(p.Type(), "NextWithContext") {
+											subscribes, inLoopSub = true, true
+										}
+									}
+								}
+							}
+						}
+					}
+				}
+				if subscribes {
+					out = append(out, emitCtx{Kind: "triple", Name: "helper " + callee.Name(), Many: inLoopSub || inLoop(call) || fn != s.Subscribe, Pos: call.Pos()})
+				}
+			}
+		}
+	}
 	// the subscribe function body itself
 	if s.bodyEmits() {
 		out = append(out, emitCtx{Kind: "body", Name: "subscribe function", Pos: s.Subscribe.Pos()})
